@@ -520,10 +520,20 @@ theorem nodup_map_of_inj {α β : Type} (f : α → β) (hf : ∀ a b, f a = f b
     simp only [List.map_cons, List.nodup_cons, List.mem_map, not_exists, not_and]
     exact ⟨fun x hx e => h.1 (hf _ _ e ▸ hx), nodup_map_of_inj f hf l h.2⟩
 
-theorem mem_genpaths {enc : Str → Str} {g : Graph} {r : NodeId} {e : Entry} (h : e ∈ genpaths enc g r) :
-    ∃ nd, (e.node, e.keys) ∈ sealed enc g r ∧ g.node e.node = some nd ∧ (e.arg, e.file) ∈ nd.gens
+/-- what the theorems need of a list of processed configurations: pairwise different positions, pairwise
+    different objects, plain keys. -/
+structure WalkOK (l : List (NodeId × List Str)) : Prop where
+  pos : (l.map Prod.snd).Nodup
+  nodes : (l.map Prod.fst).Nodup
+  plain : ∀ e ∈ l, ∀ k ∈ e.2, Plain k
+
+theorem sealed_walkOK (enc : Str → Str) (g : Graph) (hg : g.OK enc) (r : NodeId) : WalkOK (sealed enc g r) :=
+  ⟨(sealed_ok enc g hg r).1, (sealed_ok enc g hg r).2.1, (sealed_ok enc g hg r).2.2⟩
+
+theorem mem_entries {g : Graph} {l : List (NodeId × List Str)} {e : Entry} (h : e ∈ l.flatMap (entriesOf g)) :
+    ∃ nd, (e.node, e.keys) ∈ l ∧ g.node e.node = some nd ∧ (e.arg, e.file) ∈ nd.gens
       ∧ e.path = genPath e.keys e.file := by
-  simp only [genpaths, List.mem_flatMap] at h
+  simp only [List.mem_flatMap] at h
   obtain ⟨s, hs, he⟩ := h
   unfold entriesOf at he
   cases hn : g.node s.1 with
@@ -533,6 +543,10 @@ theorem mem_genpaths {enc : Str → Str} {g : Graph} {r : NodeId} {e : Entry} (h
     obtain ⟨a, ha, rfl⟩ := he
     exact ⟨nd, hs, hn, ha, rfl⟩
 
+theorem mem_genpaths {enc : Str → Str} {g : Graph} {r : NodeId} {e : Entry} (h : e ∈ genpaths enc g r) :
+    ∃ nd, (e.node, e.keys) ∈ sealed enc g r ∧ g.node e.node = some nd ∧ (e.arg, e.file) ∈ nd.gens
+      ∧ e.path = genPath e.keys e.file := mem_entries (l := sealed enc g r) h
+
 theorem gens_plain {enc : Str → Str} {nd : Node} (h : nodeOK enc nd = true) : ∀ a ∈ nd.gens, Plain a.2 := by
   simp only [nodeOK, Bool.and_eq_true, decide_eq_true_eq, List.all_eq_true] at h
   exact h.1.2
@@ -541,31 +555,28 @@ theorem gens_nodup {enc : Str → Str} {nd : Node} (h : nodeOK enc nd = true) : 
   simp only [nodeOK, Bool.and_eq_true, decide_eq_true_eq, List.all_eq_true] at h
   exact h.2
 
-theorem genpaths_shape (enc : Str → Str) (g : Graph) (hg : g.OK enc) (r : NodeId) (e : Entry)
-    (h : e ∈ genpaths enc g r) :
+theorem entries_shape (enc : Str → Str) (g : Graph) (hg : g.OK enc) (l : List (NodeId × List Str)) (hl : WalkOK l)
+    (e : Entry) (h : e ∈ l.flatMap (entriesOf g)) :
     (∀ k ∈ e.keys, Plain k) ∧ Plain e.file ∧ e.path = ⟨false, base e.keys ++ [e.file]⟩ := by
-  obtain ⟨nd, hs, hn, ha, hp⟩ := mem_genpaths h
-  have hk := (sealed_ok enc g hg r).2.2 _ hs
+  obtain ⟨nd, hs, hn, ha, hp⟩ := mem_entries h
+  have hk := hl.plain _ hs
   have hf := gens_plain (hg _ _ hn).1 _ ha
   exact ⟨hk, hf, hp ▸ genPath_plain _ _ hk hf⟩
 
-theorem genpaths_inj (enc : Str → Str) (g : Graph) (hg : g.OK enc) (r : NodeId) (e1 e2 : Entry)
-    (h1 : e1 ∈ genpaths enc g r) (h2 : e2 ∈ genpaths enc g r) (h : e1.path = e2.path) :
+theorem entries_inj (enc : Str → Str) (g : Graph) (hg : g.OK enc) (l : List (NodeId × List Str)) (hl : WalkOK l)
+    (e1 e2 : Entry) (h1 : e1 ∈ l.flatMap (entriesOf g)) (h2 : e2 ∈ l.flatMap (entriesOf g)) (h : e1.path = e2.path) :
     e1.node = e2.node ∧ e1.file = e2.file ∧ e1.keys = e2.keys := by
-  obtain ⟨k1, f1, _⟩ := genpaths_shape enc g hg r e1 h1
-  obtain ⟨k2, f2, _⟩ := genpaths_shape enc g hg r e2 h2
-  obtain ⟨_, s1, _, _, p1⟩ := mem_genpaths h1
-  obtain ⟨_, s2, _, _, p2⟩ := mem_genpaths h2
+  obtain ⟨k1, f1, _⟩ := entries_shape enc g hg l hl e1 h1
+  obtain ⟨k2, f2, _⟩ := entries_shape enc g hg l hl e2 h2
+  obtain ⟨_, s1, _, _, p1⟩ := mem_entries h1
+  obtain ⟨_, s2, _, _, p2⟩ := mem_entries h2
   rw [p1, p2] at h
   obtain ⟨hk, hf⟩ := genPath_inj k1 k2 f1 f2 h
-  have := nodup_map_inj Prod.snd _ (sealed_ok enc g hg r).1 _ s1 _ s2 hk
+  have := nodup_map_inj Prod.snd _ hl.pos _ s1 _ s2 hk
   exact ⟨congrArg Prod.fst this, hf, hk⟩
 
-theorem genpaths_params_nodup (enc : Str → Str) (g : Graph) (hg : g.OK enc) (r : NodeId) :
-    ((genpaths enc g r).map (fun e => (e.node, e.arg))).Nodup := by
-  have hs := (sealed_ok enc g hg r).2.1
-  unfold genpaths
-  generalize sealed enc g r = l at hs
+theorem entries_params_nodup (enc : Str → Str) (g : Graph) (hg : g.OK enc) (l : List (NodeId × List Str))
+    (hs : (l.map Prod.fst).Nodup) : ((l.flatMap (entriesOf g)).map (fun e => (e.node, e.arg))).Nodup := by
   induction l with
   | nil => simp
   | cons s l ih =>
@@ -607,6 +618,20 @@ theorem genpaths_params_nodup (enc : Str → Str) (g : Graph) (hg : g.OK enc) (r
       have : s.1 = s'.1 := by rw [← hxn, ← hyn]; exact (Prod.mk.inj e).1
       rw [this]
       exact List.mem_map_of_mem hs'
+
+theorem genpaths_shape (enc : Str → Str) (g : Graph) (hg : g.OK enc) (r : NodeId) (e : Entry)
+    (h : e ∈ genpaths enc g r) :
+    (∀ k ∈ e.keys, Plain k) ∧ Plain e.file ∧ e.path = ⟨false, base e.keys ++ [e.file]⟩ :=
+  entries_shape enc g hg _ (sealed_walkOK enc g hg r) e h
+
+theorem genpaths_inj (enc : Str → Str) (g : Graph) (hg : g.OK enc) (r : NodeId) (e1 e2 : Entry)
+    (h1 : e1 ∈ genpaths enc g r) (h2 : e2 ∈ genpaths enc g r) (h : e1.path = e2.path) :
+    e1.node = e2.node ∧ e1.file = e2.file ∧ e1.keys = e2.keys :=
+  entries_inj enc g hg _ (sealed_walkOK enc g hg r) e1 e2 h1 h2 h
+
+theorem genpaths_params_nodup (enc : Str → Str) (g : Graph) (hg : g.OK enc) (r : NodeId) :
+    ((genpaths enc g r).map (fun e => (e.node, e.arg))).Nodup :=
+  entries_params_nodup enc g hg _ (sealed_ok enc g hg r).2.1
 
 /-! ### E. the walker commutes with renaming of objects -/
 
@@ -1031,5 +1056,240 @@ theorem OK_escape_of_OKany {g : Graph} (h : g.OKany) : g.OK escapeKey := by
   simp only [nodeOK, Bool.and_eq_true, List.all_eq_true]
   obtain ⟨⟨⟨⟨a, b⟩, c⟩, d⟩, e⟩ := h1
   exact ⟨⟨⟨⟨a, b⟩, fun x hx => valOK_escape _ (c x hx)⟩, d⟩, e⟩
+
+/-! ### F. the walks of one `submit` call: the task, then its init tasks -/
+
+theorem walkNode_noop (enc : Str → Str) (g : Graph) (fuel : Nat) (p : List Str) (n : NodeId) (w : W)
+    (h : n ∈ w.vis ∨ g.node n = none) : walkNode enc g fuel p n w = w := by
+  cases fuel with
+  | zero => rfl
+  | succ fuel =>
+    unfold walkNode
+    by_cases hv : n ∈ w.vis
+    · simp [hv]
+    · rcases h with h | h
+      · exact absurd h hv
+      · simp [hv, h]
+
+theorem fold_noop (g : Graph) (F : W → Ref → W) (hF : ∀ e w, (e.2 ∈ w.vis ∨ g.node e.2 = none) → F w e = w) :
+    ∀ (L : List Ref) (w : W), (∀ e ∈ L, e.2 ∈ w.vis ∨ g.node e.2 = none) → L.foldl F w = w
+  | [], _, _ => rfl
+  | e :: L, w, h => by
+    rw [List.foldl_cons, hF e w (h e (by simp))]
+    exact fold_noop g F hF L w (fun e' he' => h e' (by simp [he']))
+
+/-- with some fuel, a walk visits the object it starts from. -/
+theorem walkNode_visits (enc : Str → Str) (g : Graph) (fuel : Nat) (p : List Str) (n : NodeId) (w : W) :
+    n ∈ (walkNode enc g (fuel + 1) p n w).vis ∨ g.node n = none := by
+  by_cases hv : n ∈ w.vis
+  · exact Or.inl (walkNode_vis_mono enc g _ p n w n hv)
+  · cases hn : g.node n with
+    | none => exact Or.inr rfl
+    | some nd =>
+      left
+      unfold walkNode
+      simp only [hv, if_false, hn]
+      by_cases hsd : nd.isSealed = true
+      · simp [hsd]
+      · have hsd' : nd.isSealed = false := by simpa using hsd
+        simp only [hsd', Bool.false_eq_true, if_false]
+        have h2 := fold_vis_mono (fun w e => walkNode enc g fuel (p ++ e.1) e.2 w)
+          (fun e w m hm => walkNode_vis_mono enc g fuel (p ++ e.1) e.2 w m hm) (nodeRefs enc nd)
+          { vis := n :: w.vis, out := w.out } n (by simp)
+        generalize (nodeRefs enc nd).foldl (fun w e => walkNode enc g fuel (p ++ e.1) e.2 w) { vis := n :: w.vis, out := w.out } = w2 at h2
+        cases nd.task with
+        | none => exact h2
+        | some t =>
+          simp only []
+          split
+          · exact h2
+          · exact walkNode_vis_mono enc g fuel p t w2 n h2
+
+theorem fold_visits (enc : Str → Str) (g : Graph) (k : Nat) (p : List Str) : ∀ (L : List Ref) (w : W), ∀ e ∈ L,
+    e.2 ∈ (L.foldl (fun w e => walkNode enc g (k + 1) (p ++ e.1) e.2 w) w).vis ∨ g.node e.2 = none
+  | [], _, e, he => by simp at he
+  | a :: L, w, e, he => by
+    rw [List.foldl_cons]
+    rcases List.mem_cons.mp he with rfl | h
+    · rcases walkNode_visits enc g k (p ++ e.1) e.2 w with h | h
+      · exact Or.inl (fold_vis_mono (fun w e => walkNode enc g (k + 1) (p ++ e.1) e.2 w)
+          (fun e w m hm => walkNode_vis_mono enc g (k + 1) (p ++ e.1) e.2 w m hm) L _ _ h)
+      · exact Or.inr h
+    · exact fold_visits enc g k p L _ e h
+
+/-- the walk of an unsealed object visits everything it refers to (fuel ≥ 2). -/
+theorem walkNode_visits_refs (enc : Str → Str) (g : Graph) (k : Nat) (p : List Str) (n : NodeId) (w : W) (nd : Node)
+    (hn : g.node n = some nd) (hs : nd.isSealed = false) (hv : n ∉ w.vis) :
+    ∀ e ∈ nodeRefs enc nd, e.2 ∈ (walkNode enc g (k + 2) p n w).vis ∨ g.node e.2 = none := by
+  intro e he
+  unfold walkNode
+  simp only [hv, if_false, hn, hs, Bool.false_eq_true]
+  have h2 := fold_visits enc g k p (nodeRefs enc nd) { vis := n :: w.vis, out := w.out } e he
+  generalize (nodeRefs enc nd).foldl (fun w e => walkNode enc g (k + 1) (p ++ e.1) e.2 w) { vis := n :: w.vis, out := w.out } = w2 at h2
+  cases nd.task with
+  | none => exact h2
+  | some t =>
+    simp only []
+    split
+    · exact h2
+    · rcases h2 with h2 | h2
+      · exact Or.inl (walkNode_vis_mono enc g (k + 1) p t w2 _ h2)
+      · exact Or.inr h2
+
+theorem initRefs_sub (enc : Str → Str) (nd : Node) : ∀ e ∈ initRefs enc nd, e ∈ nodeRefs enc nd := by
+  intro e he
+  unfold nodeRefs
+  exact List.mem_append_right _ he
+
+/-- **the late walks are a no-op for an unsealed task**: its own walk visits (and seals) its init tasks. -/
+theorem submitWalk_unsealed (enc : Str → Str) (g : Graph) (r : NodeId) (nd : Node) (hn : g.node r = some nd)
+    (hs : nd.isSealed = false) :
+    submitWalk enc g (g.nodes.length + 1) r = walkNode enc g (g.nodes.length + 1) [] r {} := by
+  have hpos : 0 < g.nodes.length := Nat.lt_of_le_of_lt (Nat.zero_le _) (node_lt hn)
+  obtain ⟨k, hk⟩ : ∃ k, g.nodes.length = k + 1 := ⟨g.nodes.length - 1, by omega⟩
+  unfold submitWalk
+  simp only [hn]
+  apply fold_noop g _ (fun e w h => walkNode_noop enc g _ e.1 e.2 w h)
+  intro e he
+  rw [hk]
+  exact walkNode_visits_refs enc g k [] r {} nd hn hs (by simp) e (initRefs_sub enc nd e he)
+
+theorem submitSealed_unsealed (enc : Str → Str) (g : Graph) (r : NodeId) (nd : Node) (hn : g.node r = some nd)
+    (hs : nd.isSealed = false) : submitSealed enc g r = sealed enc g r := by
+  unfold submitSealed sealed
+  rw [submitWalk_unsealed enc g r nd hn hs]
+
+theorem submitSealed_no_root (enc : Str → Str) (g : Graph) (r : NodeId) (hn : g.node r = none) :
+    submitSealed enc g r = [] := by
+  simp [submitSealed, submitWalk, walkNode, hn]
+
+theorem initRefs_ok (enc : Str → Str) (nd : Node) : RefsOK (initRefs enc nd) ∧ KeysPlain (initRefs enc nd) := by
+  have h := refsList_ok enc (nd.initTasks.map Val.ref) 0 (valsOK_refs enc _)
+  exact ⟨refsOK_map_prep _ h.1, keysPlain_map_prep plain_initKey h.2.1⟩
+
+theorem mem_refsList_refs (enc : Str → Str) : ∀ (l : List NodeId) (j : Nat) (e : Ref), e ∈ refsList enc j (l.map Val.ref) →
+    ∃ i, i < l.length ∧ e.1 = [idxKey (j + i)] ∧ l[i]? = some e.2
+  | [], _, e, h => by simp [refsList] at h
+  | a :: l, j, e, h => by
+    simp only [List.map_cons, refsList, refs, List.map_cons, List.map_nil, List.cons_append, List.nil_append, List.mem_cons] at h
+    rcases h with rfl | h
+    · exact ⟨0, by simp, by simp [prep], by simp [prep]⟩
+    · obtain ⟨i, hi, h1, h2⟩ := mem_refsList_refs enc l (j + 1) e h
+      refine ⟨i + 1, by simp; omega, ?_, by simpa using h2⟩
+      rw [h1]
+      congr 2
+      omega
+
+theorem mem_initRefs (enc : Str → Str) (nd : Node) (e : Ref) (h : e ∈ initRefs enc nd) :
+    ∃ i, i < nd.initTasks.length ∧ e.1 = [initKey, idxKey i] ∧ nd.initTasks[i]? = some e.2 := by
+  unfold initRefs at h
+  obtain ⟨e0, he0, rfl⟩ := List.mem_map.mp h
+  obtain ⟨i, hi, h1, h2⟩ := mem_refsList_refs enc nd.initTasks 0 e0 he0
+  exact ⟨i, hi, by simp [prep, h1], h2⟩
+
+/-- **a task sealed before its submission**: the submission processes init-task subgraphs only — never the
+    task itself — each at a position below `__init_tasks__` / index; positions and objects pairwise different. -/
+theorem submitSealed_sealed_root (enc : Str → Str) (g : Graph) (hg : g.OK enc) (r : NodeId) (nd : Node)
+    (hn : g.node r = some nd) (hs : nd.isSealed = true) :
+    WalkOK (submitSealed enc g r)
+      ∧ ∀ e ∈ submitSealed enc g r, e.1 ≠ r ∧ ∃ i t, i < nd.initTasks.length ∧ e.2 = initKey :: idxKey i :: t := by
+  have hw0 : walkNode enc g (g.nodes.length + 1) [] r {} = ⟨[r], []⟩ := by simp [walkNode, hn, hs]
+  have hio := initRefs_ok enc nd
+  have hfold := fold_ext [] (fun w e => walkNode enc g (g.nodes.length + 1) e.1 e.2 w) (initRefs enc nd) hio.1
+    (fun e _ w => walkNode_ext enc g hg (g.nodes.length + 1) ([] ++ e.1) e.2 w) ⟨[r], []⟩
+  have hsub : submitSealed enc g r
+      = ((initRefs enc nd).foldl (fun w e => walkNode enc g (g.nodes.length + 1) e.1 e.2 w) ⟨[r], []⟩).out := by
+    unfold submitSealed submitWalk
+    simp only [hn, hw0]
+  obtain ⟨_, new, o, pr, ns, nf⟩ := hfold
+  have hnew : submitSealed enc g r = new := by rw [hsub, o]; rfl
+  rw [hnew]
+  refine ⟨⟨ns, nf, ?_⟩, ?_⟩
+  · intro e he k hk
+    obtain ⟨_, _, ref, href, t, ht, hpl⟩ := pr e he
+    rw [ht] at hk
+    simp only [List.nil_append, List.mem_append] at hk
+    rcases hk with hk | hk
+    · exact hio.2 ref href k hk
+    · exact hpl k hk
+  · intro e he
+    obtain ⟨hv, _, ref, href, t, ht, _⟩ := pr e he
+    refine ⟨fun h => hv (by simp [h]), ?_⟩
+    obtain ⟨i, hi, h1, _⟩ := mem_initRefs enc nd ref href
+    exact ⟨i, t, hi, by rw [ht, h1]; rfl⟩
+
+/-- what one `submit` call processes: pairwise different positions, pairwise different objects, plain keys. -/
+theorem submitSealed_ok (enc : Str → Str) (g : Graph) (hg : g.OK enc) (r : NodeId) : WalkOK (submitSealed enc g r) := by
+  cases hn : g.node r with
+  | none => rw [submitSealed_no_root enc g r hn]; exact ⟨by simp, by simp, by simp⟩
+  | some nd =>
+    by_cases hs : nd.isSealed = true
+    · exact (submitSealed_sealed_root enc g hg r nd hn hs).1
+    · rw [submitSealed_unsealed enc g r nd hn (by simpa using hs)]
+      exact sealed_walkOK enc g hg r
+
+theorem submitPaths_unsealed (enc : Str → Str) (g : Graph) (r : NodeId) (nd : Node) (hn : g.node r = some nd)
+    (hs : nd.isSealed = false) : submitPaths enc g r = genpaths enc g r := by
+  unfold submitPaths genpaths
+  rw [submitSealed_unsealed enc g r nd hn hs]
+
+/-! #### renaming -/
+
+theorem initRefs_rename (enc : Str → Str) (σ : NodeId → NodeId) (nd : Node) :
+    initRefs enc (nd.rename σ) = (initRefs enc nd).map (mapSnd σ) := by
+  simp only [initRefs, Node.rename, renameVals_refs, refsList_rename, mapSnd_prep]
+
+theorem submitWalk_rename (enc : Str → Str) (σ : NodeId → NodeId) (g g' : Graph) (hs : Graph.Same σ g g')
+    (fuel : Nat) (r : NodeId) : submitWalk enc g' fuel (σ r) = (submitWalk enc g fuel r).rename σ := by
+  have h0 : walkNode enc g' fuel [] (σ r) {} = (walkNode enc g fuel [] r {}).rename σ :=
+    walkNode_rename enc σ g g' hs fuel [] r {}
+  unfold submitWalk
+  rw [hs.node r]
+  cases g.node r with
+  | none => exact h0
+  | some nd =>
+    simp only [Option.map_some]
+    rw [initRefs_rename, h0]
+    exact fold_rename σ (fun w e => walkNode enc g fuel e.1 e.2 w) (fun w e => walkNode enc g' fuel e.1 e.2 w)
+      (fun e w => walkNode_rename enc σ g g' hs fuel e.1 e.2 w) _ _
+
+theorem submitSealed_rename (enc : Str → Str) (σ : NodeId → NodeId) (g g' : Graph) (hs : Graph.Same σ g g') (r : NodeId) :
+    submitSealed enc g' (σ r) = (submitSealed enc g r).map (fun e => (σ e.1, e.2)) := by
+  simp only [submitSealed, hs.len]
+  rw [submitWalk_rename enc σ g g' hs]
+  rfl
+
+theorem entries_rename (σ : NodeId → NodeId) (g g' : Graph) (hs : Graph.Same σ g g') : ∀ (l : List (NodeId × List Str)),
+    (l.map (fun e => (σ e.1, e.2))).flatMap (entriesOf g') = (l.flatMap (entriesOf g)).map (Entry.rename σ)
+  | [] => rfl
+  | e :: l => by
+    simp only [List.map_cons, List.flatMap_cons, List.map_append]
+    rw [entries_rename σ g g' hs l, entriesOf_rename σ g g' hs e]
+
+theorem submitPaths_rename (enc : Str → Str) (σ : NodeId → NodeId) (g g' : Graph) (hs : Graph.Same σ g g') (r : NodeId) :
+    submitPaths enc g' (σ r) = (submitPaths enc g r).map (Entry.rename σ) := by
+  unfold submitPaths
+  rw [submitSealed_rename enc σ g g' hs, entries_rename σ g g' hs]
+
+/-! #### fuel -/
+
+theorem unvis_le (g : Graph) (v : List NodeId) : unvis g v ≤ g.nodes.length := by
+  unfold unvis
+  exact Nat.le_trans (List.countP_le_length) (by simp)
+
+theorem submitWalk_fuel (enc : Str → Str) (g : Graph) (r : NodeId) (fuel : Nat) (h : g.nodes.length ≤ fuel) :
+    submitWalk enc g fuel r = submitWalk enc g (g.nodes.length + 1) r := by
+  have hu := fun v => unvis_le g v
+  have h0 : walkNode enc g fuel [] r {} = walkNode enc g (g.nodes.length + 1) [] r {} :=
+    walkNode_fuel enc g fuel (g.nodes.length + 1) [] r {} (Nat.le_trans (hu _) h) (Nat.le_trans (hu _) (Nat.le_succ _))
+  unfold submitWalk
+  rw [h0]
+  cases g.node r with
+  | none => rfl
+  | some nd =>
+    exact fold_fuel g (fun w e => walkNode enc g fuel e.1 e.2 w) (fun w e => walkNode enc g (g.nodes.length + 1) e.1 e.2 w)
+      fuel (g.nodes.length + 1) (fun e w m hm => walkNode_vis_mono enc g fuel e.1 e.2 w m hm)
+      (fun e w a b => walkNode_fuel enc g fuel (g.nodes.length + 1) e.1 e.2 w a b) _ _
+      (Nat.le_trans (hu _) h) (Nat.le_trans (hu _) (Nat.le_succ _))
 
 end XpmVerif.GenPath
